@@ -8,6 +8,11 @@ PROP = {
                    "sizes 1 B - 64 KiB through every write API (write, write_all, write_chunks, write_all_chunks) and read API "
                    "(read, read_chunk ordered/unordered, read_chunks, read_to_end), stream/connection/send windows from 1 byte "
                    "to 8 MiB, stream limits 0/1/4/100 (raised later when 0), reader pacing scripts, datagrams alongside. "
+                   "One third of the transfer programs let readers abandon streams: RecvStream::stop(code) after k bytes (k = 0, 1, "
+                   "some, all) or drop of the RecvStream with unread data, issued while the writer is blocked on flow control (the "
+                   "reader waits until it sees the writer pending), idle (paused, or inside stopped()), mid-transfer or already "
+                   "finished; stream windows 16 B - 16 KiB, with and without connection-level limits, stream limits 1-2 with up to "
+                   "8 flows; the writer must get WriteError::Stopped(code) / stopped() = Some(code) instead of hanging. "
                    "Close programs: a seeded set of futures parked (read, write blocked on the window, stopped, "
                    "received_reset, open_uni/bi_wait at the stream limit, accept_uni/bi, recv_datagram, send_datagram_wait, "
                    "closed, wait_incoming, Connecting and handshake_data of a black-holed connect), then Connection::close / "
@@ -27,7 +32,9 @@ PROP = {
              "senders/receivers x accept tasks x fixtures x close plan (kind, side, point: after completion / when every task "
              "is blocked / after k executor ticks) x executor event interval x driver; every executed program that reached "
              "its close point is non-trivial; distinct = distinct (driver, mode, window classes, stream mix + limit class, "
-             "reader pacing set, close kind@point, set of future kinds pending at the close instant) strings"),
+             "reader pacing set, close kind@point, set of future kinds pending at the close instant) strings; stop legs add "
+             "(k, stop vs drop, code, stop point, idle writer yes/no) and the signature of such a program also carries the set of "
+             "{stop|drop} x {writer blocked | idle | finished | active at the stop} x {connection-level limit configured}"),
     "assumptions": [
         "bytes count as written by the return values of the write calls; a write_all that fails counts nothing",
         "datagrams may be lost (QUIC datagrams are unreliable); only corruption and duplication are violations",
@@ -37,6 +44,14 @@ PROP = {
         "CONNECTION_CLOSE packet never arrived is inconclusive, not a violation; close programs configure 8-12 s",
         "an idle timeout that fires before the close point of a close program (process starved) is inconclusive",
         "watchdog (25 s / 45 s per program) alone is inconclusive",
+        "a stop that arrives after the writer finished is a no-op: write calls may return Ok for bytes accepted before the "
+        "STOP_SENDING arrived, finish()/shutdown() after the stop may return Ok or ClosedStream, stopped() after finish may "
+        "yield None or Some(code); only a hang, a wrong code, Stopped before the reader acted, or wrong data is a violation",
+        "after WriteError::Stopped the writer drops (resets) the SendStream; a held, unfinished SendStream legitimately keeps "
+        "the stream slot occupied; the first stop() may answer ClosedStream when the last read already consumed the end of stream",
+        "connection-level flow-control accounting is not checked towards a side whose readers abandon streams (quinn-proto "
+        "0.11.17 credits the unread bytes of a stopped stream at stop() and again at RESET_STREAM: arithmetic of the trusted layer)",
+        "the stranded-writer oracle is applied in transfer programs only; close programs get no stop legs",
     ],
     "legs": [
         {"name": "plain", "build": "plain", "pkg": "vsec", "cmd": "c16", "shards": 16,
